@@ -67,4 +67,644 @@ theorem toNat_ofNat_of_lt {n : Nat} (h : n < 0xd800) : (Char.ofNat n).toNat = n 
   have hv : n.isValidChar := Or.inl h
   simp [Char.ofNat, hv, Char.ofNatAux, Char.toNat]
 
+/-! ### tokens and render -/
+
+theorem tokens_cons_of_ne {c : Char} (hc : c ≠ '%') (r : Str) :
+    tokens (c :: r) = .raw c :: tokens r := by
+  match r with
+  | [] => simp [tokens, single, hc]
+  | [h1] => simp [tokens, single, hc]
+  | h1 :: h2 :: rest => simp [tokens, single, hc]
+
+theorem tokens_esc {h1 h2 : Char} (hh1 : isHexDigit h1 = true) (hh2 : isHexDigit h2 = true)
+    (r : Str) : tokens ('%' :: h1 :: h2 :: r) = .esc h1 h2 :: tokens r := by
+  simp [tokens, hh1, hh2]
+
+@[simp] theorem render_nil : render [] = [] := rfl
+@[simp] theorem render_cons (t : Tok) (ts : List Tok) : render (t :: ts) = renderTok t ++ render ts := by
+  simp [render]
+theorem render_append (a b : List Tok) : render (a ++ b) = render a ++ render b := by
+  simp [render]
+
+/-- rendering the tokens of a string gives the string back -/
+theorem render_tokens (s : Str) : render (tokens s) = s := by
+  fun_induction tokens s with
+  | case1 => rfl
+  | case2 c h1 h2 rest h ih =>
+    simp only [render_cons, renderTok, ih]
+    simp [h.1]
+  | case3 c h1 h2 rest h ih =>
+    simp only [render_cons, ih, single]
+    split <;> simp_all [renderTok]
+  | case4 c rest hne ih =>
+    simp only [render_cons, ih, single]
+    split <;> simp_all [renderTok]
+
+/-- tokens that a scan can produce: raw characters are not `%`, escapes have hex digits -/
+def WfTok : Tok → Prop
+  | .raw c => c ≠ '%'
+  | .esc h1 h2 => isHexDigit h1 = true ∧ isHexDigit h2 = true
+  | .stray => True
+
+/-- tokens that re-scan to themselves whatever follows: well-formed and not a stray `%` -/
+def CanonTok : Tok → Prop
+  | .raw c => c ≠ '%'
+  | .esc h1 h2 => isHexDigit h1 = true ∧ isHexDigit h2 = true
+  | .stray => False
+
+theorem wf_tokens (s : Str) : ∀ t ∈ tokens s, WfTok t := by
+  fun_induction tokens s with
+  | case1 => simp
+  | case2 c h1 h2 rest h ih =>
+    intro t ht
+    simp only [List.mem_cons] at ht
+    rcases ht with rfl | ht
+    · exact ⟨h.2.1, h.2.2⟩
+    · exact ih t ht
+  | case3 c h1 h2 rest h ih =>
+    intro t ht
+    simp only [List.mem_cons] at ht
+    rcases ht with rfl | ht
+    · unfold single; split <;> simp_all [WfTok]
+    · exact ih t ht
+  | case4 c rest hne ih =>
+    intro t ht
+    simp only [List.mem_cons] at ht
+    rcases ht with rfl | ht
+    · unfold single; split <;> simp_all [WfTok]
+    · exact ih t ht
+
+/-- a canonical token list is the scan of its rendering -/
+theorem tokens_render_of_canon (ts : List Tok) (h : ∀ t ∈ ts, CanonTok t) :
+    tokens (render ts) = ts := by
+  induction ts with
+  | nil => rfl
+  | cons t ts ih =>
+    have ht := h t (by simp)
+    have ih' := ih (fun t' ht' => h t' (by simp [ht']))
+    cases t with
+    | raw c =>
+      simp only [render_cons, renderTok, List.singleton_append]
+      rw [tokens_cons_of_ne ht, ih']
+    | esc h1 h2 =>
+      simp only [render_cons, renderTok, List.cons_append, List.nil_append]
+      rw [tokens_esc ht.1 ht.2, ih']
+    | stray => exact absurd ht (by simp [CanonTok])
+
+/-! ### hex digits -/
+
+theorem isHexDigit_hexDigitUpper : ∀ n, n < 16 → isHexDigit (hexDigitUpper n) = true := by decide
+theorem hexVal_hexDigitUpper : ∀ n, n < 16 → hexVal (hexDigitUpper n) = n := by decide
+theorem hexDigitUpper_lt : ∀ n, n < 16 → (hexDigitUpper n).toNat < 0x80 := by decide
+theorem hexDigitUpper_not_special : ∀ n, n < 16 →
+    hexDigitUpper n ≠ '%' ∧ hexDigitUpper n ≠ ' ' ∧ 0x20 ≤ (hexDigitUpper n).toNat ∧
+      (hexDigitUpper n).toNat ≠ 0x7f := by decide
+
+theorem byteOf_escOfByte (b : UInt8) :
+    byteOf (hexDigitUpper (b.toNat / 16)) (hexDigitUpper (b.toNat % 16)) = b := by
+  have hb := b.toNat_lt
+  unfold byteOf
+  rw [hexVal_hexDigitUpper _ (by omega), hexVal_hexDigitUpper _ (by omega)]
+  have : b.toNat / 16 * 16 + b.toNat % 16 = b.toNat := by omega
+  rw [this]
+  simp
+
+theorem canon_escOfByte (b : UInt8) : CanonTok (escOfByte b) := by
+  have hb := b.toNat_lt
+  exact ⟨isHexDigit_hexDigitUpper _ (by omega), isHexDigit_hexDigitUpper _ (by omega)⟩
+
+theorem pctTok_escOfByte (b : UInt8) : pctTok (escOfByte b) = [b] := by
+  simp [escOfByte, pctTok, byteOf_escOfByte]
+
+theorem pct_map_escOfByte (bs : List UInt8) : pct (bs.map escOfByte) = bs := by
+  induction bs with
+  | nil => rfl
+  | cons b bs ih =>
+    simp only [pct, List.map_cons, List.flatMap_cons, pctTok_escOfByte] at ih ⊢
+    simp [ih]
+
+@[simp] theorem pct_nil : pct [] = [] := rfl
+@[simp] theorem pct_cons (t : Tok) (ts : List Tok) : pct (t :: ts) = pctTok t ++ pct ts := by
+  simp [pct]
+theorem pct_append (a b : List Tok) : pct (a ++ b) = pct a ++ pct b := by
+  simp [pct]
+
+/-- hex digits are ASCII, neither `%` nor a space nor a control character -/
+theorem isHexDigit_props {c : Char} (h : isHexDigit c = true) :
+    c.toNat < 0x80 ∧ c ≠ '%' ∧ c ≠ ' ' ∧ 0x20 ≤ c.toNat ∧ c.toNat ≠ 0x7f := by
+  simp only [isHexDigit, isAsciiDigit, Bool.or_eq_true, decide_eq_true_eq, Char.le_def,
+    UInt32.le_iff_toNat_le] at h
+  have e : c.val.toNat = c.toNat := rfl
+  refine ⟨?_, ?_, ?_, ?_, ?_⟩
+  · rcases h with (h | h) | h <;> (simp at h; omega)
+  · rintro rfl; rcases h with (h | h) | h <;> simp at h
+  · rintro rfl; rcases h with (h | h) | h <;> simp at h
+  · rcases h with (h | h) | h <;> (simp at h; omega)
+  · rcases h with (h | h) | h <;> (simp at h; omega)
+
+/-! ### safely_quote -/
+
+theorem quoteSafe_props {c : Char} (h : quoteSafe c = true) : c.toNat < 0x80 ∧ c ≠ '%' := by
+  simp only [quoteSafe, isAsciiAlpha, isAsciiDigit, Bool.or_eq_true, decide_eq_true_eq,
+    Char.le_def, UInt32.le_iff_toNat_le] at h
+  have e : c.val.toNat = c.toNat := rfl
+  constructor
+  · rcases h with (((((h | h) | h) | h) | h) | h) | h
+    · rcases h with h | h <;> (simp at h; omega)
+    · simp at h; omega
+    all_goals (subst h; decide)
+  · rintro rfl
+    rcases h with (((((h | h) | h) | h) | h) | h) | h
+    · rcases h with h | h <;> simp at h
+    · simp at h
+    all_goals (simp at h)
+
+theorem canon_quoteTok {t : Tok} (h : WfTok t) : ∀ t' ∈ quoteTok t, CanonTok t' := by
+  cases t with
+  | raw c =>
+    simp only [quoteTok]
+    split
+    · rename_i hs; intro t' ht'; simp at ht'; subst ht'; exact (quoteSafe_props hs).2
+    · intro t' ht'
+      simp only [List.mem_map] at ht'
+      obtain ⟨b, _, rfl⟩ := ht'
+      exact canon_escOfByte b
+  | esc h1 h2 => intro t' ht'; simp [quoteTok] at ht'; subst ht'; exact h
+  | stray => intro t' ht'; simp [quoteTok] at ht'; subst ht'; exact ⟨by decide, by decide⟩
+
+theorem canon_quoteToks {ts : List Tok} (h : ∀ t ∈ ts, WfTok t) :
+    ∀ t ∈ quoteToks ts, CanonTok t := by
+  intro t ht
+  simp only [quoteToks, List.mem_flatMap] at ht
+  obtain ⟨t0, ht0, ht⟩ := ht
+  exact canon_quoteTok (h t0 ht0) t ht
+
+theorem pct_quoteTok (t : Tok) : pct (quoteTok t) = pctTok t := by
+  cases t with
+  | raw c =>
+    simp only [quoteTok]
+    split
+    · simp [pctTok]
+    · simp [pct_map_escOfByte, pctTok]
+  | esc h1 h2 => simp [quoteTok]
+  | stray => simp [quoteTok, pctTok]; decide
+
+theorem pct_quoteToks (ts : List Tok) : pct (quoteToks ts) = pct ts := by
+  induction ts with
+  | nil => rfl
+  | cons t ts ih =>
+    have : quoteToks (t :: ts) = quoteTok t ++ quoteToks ts := by simp [quoteToks]
+    rw [this, pct_append, pct_quoteTok, ih, pct_cons]
+
+theorem quoteToks_quoteTok (t : Tok) : quoteToks (quoteTok t) = quoteTok t := by
+  cases t with
+  | raw c =>
+    simp only [quoteTok]
+    split
+    · rename_i hs; simp [quoteToks, quoteTok, hs]
+    · generalize utf8 c = bs
+      induction bs with
+      | nil => rfl
+      | cons b bs ih =>
+        simp only [quoteToks, List.map_cons, List.flatMap_cons] at ih ⊢
+        rw [ih]; simp [escOfByte, quoteTok]
+  | esc h1 h2 => simp [quoteToks, quoteTok]
+  | stray => simp [quoteToks, quoteTok]
+
+theorem quoteToks_idem (ts : List Tok) : quoteToks (quoteToks ts) = quoteToks ts := by
+  induction ts with
+  | nil => rfl
+  | cons t ts ih =>
+    have h1 : quoteToks (t :: ts) = quoteTok t ++ quoteToks ts := by simp [quoteToks]
+    have h2 : ∀ a b : List Tok, quoteToks (a ++ b) = quoteToks a ++ quoteToks b := by
+      intro a b; simp [quoteToks]
+    rw [h1, h2, quoteToks_quoteTok, ih]
+
+/-- characters of a rendered canonical escape or safe raw char are ASCII -/
+theorem ascii_render_quoteTok {t : Tok} (h : WfTok t) :
+    ∀ ch ∈ render (quoteTok t), ch.toNat < 0x80 := by
+  cases t with
+  | raw c =>
+    simp only [quoteTok]
+    split
+    · rename_i hs; intro ch hch; simp [renderTok] at hch; subst hch; exact (quoteSafe_props hs).1
+    · generalize utf8 c = bs
+      induction bs with
+      | nil => simp
+      | cons b bs ih =>
+        intro ch hch
+        simp only [List.map_cons, render_cons, List.mem_append] at hch
+        rcases hch with hch | hch
+        · have hb := b.toNat_lt
+          simp only [escOfByte, renderTok, List.mem_cons, List.not_mem_nil, or_false] at hch
+          rcases hch with rfl | rfl | rfl
+          · decide
+          · exact hexDigitUpper_lt _ (by omega)
+          · exact hexDigitUpper_lt _ (by omega)
+        · exact ih ch hch
+  | esc h1 h2 =>
+    intro ch hch
+    simp only [quoteTok, render_cons, renderTok, render_nil, List.append_nil, List.mem_cons,
+      List.not_mem_nil, or_false] at hch
+    rcases hch with rfl | rfl | rfl
+    · decide
+    · exact (isHexDigit_props h.1).1
+    · exact (isHexDigit_props h.2).1
+  | stray =>
+    intro ch hch
+    simp only [quoteTok, render_cons, renderTok, render_nil, List.append_nil, List.mem_cons,
+      List.not_mem_nil, or_false] at hch
+    rcases hch with rfl | rfl | rfl <;> decide
+
+/-! ### segmentation of decoded bytes -/
+
+/-- the bytes a segment stands for -/
+def segBytes : Char ⊕ UInt8 → List UInt8
+  | .inl c => utf8 c
+  | .inr b => [b]
+
+theorem segment_go_bytes (fuel : Nat) (bs : List UInt8) (h : bs.length < fuel) :
+    (segment.go bs fuel).flatMap segBytes = bs := by
+  induction fuel generalizing bs with
+  | zero => omega
+  | succ fuel ih =>
+    cases bs with
+    | nil => simp [segment.go]
+    | cons b rest =>
+      simp only [segment.go]
+      cases hd : decodeHead (b :: rest) with
+      | none =>
+        simp only [List.flatMap_cons, segBytes]
+        rw [ih rest (by simp at h; omega)]; rfl
+      | some c =>
+        obtain ⟨l, hl⟩ := decodeHead_some hd
+        simp only [List.flatMap_cons, segBytes]
+        have hdrop : (b :: rest).drop c.utf8Size = l := by
+          rw [hl, ← utf8_length c]; simp
+        rw [hdrop, ih l ?_, hl]
+        have h1 : (b :: rest).length = (utf8 c).length + l.length := by rw [hl]; simp
+        have h2 := utf8_length c
+        have h3 := c.utf8Size_pos
+        simp at h h1; omega
+
+theorem segment_bytes (bs : List UInt8) : (segment bs).flatMap segBytes = bs :=
+  segment_go_bytes _ bs (by omega)
+
+/-- what a segment of a run of bytes ≥ 0x80 can be -/
+def SegHigh : Char ⊕ UInt8 → Prop
+  | .inl c => 0x80 ≤ c.toNat
+  | .inr b => 0x80 ≤ b.toNat
+
+theorem segment_go_high (fuel : Nat) (bs : List UInt8) (hb : ∀ b ∈ bs, 0x80 ≤ b.toNat) :
+    ∀ x ∈ segment.go bs fuel, SegHigh x := by
+  induction fuel generalizing bs with
+  | zero => simp [segment.go]
+  | succ fuel ih =>
+    cases bs with
+    | nil => simp [segment.go]
+    | cons b rest =>
+      simp only [segment.go]
+      cases hd : decodeHead (b :: rest) with
+      | none =>
+        intro x hx
+        simp only [List.mem_cons] at hx
+        rcases hx with rfl | hx
+        · exact hb b (by simp)
+        · exact ih rest (fun b' hb' => hb b' (by simp [hb'])) x hx
+      | some c =>
+        intro x hx
+        simp only [List.mem_cons] at hx
+        rcases hx with rfl | hx
+        · exact decodeHead_high hd (hb b (by simp))
+        · exact ih _ (fun b' hb' => hb b' (List.mem_of_mem_drop hb')) x hx
+
+theorem segment_high (bs : List UInt8) (hb : ∀ b ∈ bs, 0x80 ≤ b.toNat) :
+    ∀ x ∈ segment bs, SegHigh x := segment_go_high _ bs hb
+
+/-! ### safely_unquote_*: decoded bytes are preserved -/
+
+def bytesOf : Item → List UInt8
+  | .lit t => pctTok t
+  | .byte b => [b]
+
+theorem utf8_space : utf8 ' ' = [0x20] := by decide
+
+theorem bytesOf_itemOf (U : List UInt8) (t : Tok) : bytesOf (itemOf U t) = pctTok t := by
+  cases t with
+  | raw c =>
+    simp only [itemOf]
+    split
+    · rename_i h; subst h; simp [bytesOf, pctTok, utf8_space]; decide
+    · rfl
+  | stray => simp [itemOf, bytesOf, pctTok]; decide
+  | esc h1 h2 =>
+    simp only [itemOf]
+    split
+    · rfl
+    · split
+      · rename_i hlt
+        split
+        · rename_i h20; simp [bytesOf, pctTok, h20]; decide
+        · have hlt' : (byteOf h1 h2).toNat < 0x80 := by
+            have := UInt8.lt_iff_toNat_lt.1 hlt; simpa using this
+          simp only [bytesOf, pctTok]
+          rw [utf8_ascii (by rw [toNat_ofNat_of_lt (by omega)]; exact hlt'),
+            toNat_ofNat_of_lt (by omega)]
+          simp
+      · rfl
+
+theorem pct_flush (bs : List UInt8) : pct (flush bs) = bs := by
+  have h := segment_bytes bs
+  unfold flush
+  generalize segment bs = segs at h
+  induction segs generalizing bs with
+  | nil => simpa using h
+  | cons x xs ih =>
+    simp only [List.flatMap_cons] at h ⊢
+    rw [pct_append, ih _ rfl, ← h]
+    congr 1
+    cases x with
+    | inl c => simp only [segBytes]; split <;> simp [pct_map_escOfByte, pctTok]
+    | inr b => simp [segBytes, pctTok_escOfByte]
+
+theorem pct_assemble (its : List Item) (acc : List UInt8) :
+    pct (assemble its acc) = acc ++ its.flatMap bytesOf := by
+  induction its generalizing acc with
+  | nil => simp [assemble, pct_flush]
+  | cons it its ih =>
+    cases it with
+    | lit t => simp [assemble, pct_append, pct_flush, ih, bytesOf]
+    | byte b => simp [assemble, ih, bytesOf]
+
+theorem pct_unquoteToks (U : List UInt8) (ts : List Tok) : pct (unquoteToks U ts) = pct ts := by
+  unfold unquoteToks
+  rw [pct_assemble]
+  simp only [List.nil_append, List.flatMap_map, bytesOf_itemOf]
+  rfl
+
+/-! ### safely_unquote_*: what an output token can be -/
+
+/-- Every token of the output is: a raw character of the input other than a space; a
+well-formed escape; a decoded ASCII character that is printable, not a space and not
+`keepEsc`; or a decoded non-ASCII character that is not a C1 control. -/
+inductive OutTok (U : List UInt8) (ts : List Tok) : Tok → Prop where
+  | input (c : Char) : .raw c ∈ ts → c ≠ ' ' → OutTok U ts (.raw c)
+  | esc (h1 h2 : Char) : isHexDigit h1 = true → isHexDigit h2 = true → OutTok U ts (.esc h1 h2)
+  | ascii (b : UInt8) : b.toNat < 0x80 → keepEsc U b = false → b ≠ 0x20 →
+      OutTok U ts (.raw (Char.ofNat b.toNat))
+  | high (c : Char) : 0xa0 ≤ c.toNat → OutTok U ts (.raw c)
+
+def ItemOk (U : List UInt8) (ts : List Tok) : Item → Prop
+  | .lit t => OutTok U ts t
+  | .byte b => 0x80 ≤ b.toNat
+
+theorem itemOk_itemOf (U : List UInt8) (ts : List Tok) (t : Tok) (ht : t ∈ ts) (hw : WfTok t) :
+    ItemOk U ts (itemOf U t) := by
+  cases t with
+  | raw c =>
+    simp only [itemOf]
+    split
+    · exact .esc _ _ (by decide) (by decide)
+    · rename_i h; exact .input c ht h
+  | stray => exact .esc _ _ (by decide) (by decide)
+  | esc h1 h2 =>
+    simp only [itemOf]
+    split
+    · exact .esc _ _ hw.1 hw.2
+    · rename_i hk
+      split
+      · rename_i hlt
+        have hlt' : (byteOf h1 h2).toNat < 0x80 := by
+          have := UInt8.lt_iff_toNat_lt.1 hlt; simpa using this
+        split
+        · exact .esc _ _ (by decide) (by decide)
+        · rename_i h20
+          exact .ascii _ hlt' (by simpa using hk) h20
+      · rename_i hge
+        have : ¬ (byteOf h1 h2).toNat < 0x80 := by
+          intro h; exact hge (UInt8.lt_iff_toNat_lt.2 (by simpa using h))
+        show 0x80 ≤ (byteOf h1 h2).toNat
+        omega
+
+theorem outTok_flush (U : List UInt8) (ts : List Tok) (bs : List UInt8)
+    (hb : ∀ b ∈ bs, 0x80 ≤ b.toNat) : ∀ t ∈ flush bs, OutTok U ts t := by
+  intro t ht
+  simp only [flush, List.mem_flatMap] at ht
+  obtain ⟨x, hx, ht⟩ := ht
+  have hs := segment_high bs hb x hx
+  cases x with
+  | inl c =>
+    simp only at ht
+    split at ht
+    · simp only [List.mem_map] at ht
+      obtain ⟨b, _, rfl⟩ := ht
+      exact .esc _ _ (canon_escOfByte b).1 (canon_escOfByte b).2
+    · rename_i hc1
+      simp only [List.mem_singleton] at ht
+      subst ht
+      refine .high c ?_
+      simp only [isC1, Bool.and_eq_true, decide_eq_true_eq, not_and, Nat.not_le] at hc1
+      have : 0x80 ≤ c.toNat := hs
+      have := hc1 this
+      omega
+  | inr b =>
+    simp only [List.mem_singleton] at ht
+    subst ht
+    exact .esc _ _ (canon_escOfByte b).1 (canon_escOfByte b).2
+
+theorem outTok_assemble (U : List UInt8) (ts : List Tok) (its : List Item) (acc : List UInt8)
+    (hits : ∀ it ∈ its, ItemOk U ts it) (hacc : ∀ b ∈ acc, 0x80 ≤ b.toNat) :
+    ∀ t ∈ assemble its acc, OutTok U ts t := by
+  induction its generalizing acc with
+  | nil => simpa [assemble] using outTok_flush U ts acc hacc
+  | cons it its ih =>
+    have hrest : ∀ it' ∈ its, ItemOk U ts it' := fun it' h => hits it' (by simp [h])
+    cases it with
+    | lit t0 =>
+      intro t ht
+      simp only [assemble, List.mem_append, List.mem_cons] at ht
+      rcases ht with ht | rfl | ht
+      · exact outTok_flush U ts acc hacc t ht
+      · exact hits (.lit t) (by simp)
+      · exact ih [] hrest (by simp) t ht
+    | byte b =>
+      simp only [assemble]
+      apply ih _ hrest
+      intro b' hb'
+      simp only [List.mem_append, List.mem_singleton] at hb'
+      rcases hb' with hb' | rfl
+      · exact hacc b' hb'
+      · exact hits (.byte b') (by simp)
+
+/-- the characterisation of the output tokens of the safe unquoters -/
+theorem outTok_unquoteToks (U : List UInt8) (ts : List Tok) (hw : ∀ t ∈ ts, WfTok t) :
+    ∀ t ∈ unquoteToks U ts, OutTok U ts t := by
+  unfold unquoteToks
+  apply outTok_assemble U ts _ [] _ (by simp)
+  intro it hit
+  simp only [List.mem_map] at hit
+  obtain ⟨t, ht, rfl⟩ := hit
+  exact itemOk_itemOf U ts t ht (hw t ht)
+
+theorem keepEsc_of_mem {U : List UInt8} {b : UInt8} (h : b ∈ U) : keepEsc U b = true := by
+  simp [keepEsc, h]
+
+/-- with `%` in the unsafe set, every output token is canonical (re-scans to itself) -/
+theorem canon_of_outTok {U : List UInt8} {ts : List Tok} (hU : (0x25 : UInt8) ∈ U)
+    (hw : ∀ t ∈ ts, WfTok t) {t : Tok} (h : OutTok U ts t) : CanonTok t := by
+  cases h with
+  | input c hc _ => exact hw _ hc
+  | esc h1 h2 a b => exact ⟨a, b⟩
+  | ascii b hlt hk h20 =>
+    show Char.ofNat b.toNat ≠ '%'
+    intro heq
+    have : (Char.ofNat b.toNat).toNat = 37 := by rw [heq]; rfl
+    rw [toNat_ofNat_of_lt (by omega)] at this
+    have hb : b = 0x25 := UInt8.toNat_inj.1 (by simpa using this)
+    rw [hb, keepEsc_of_mem hU] at hk
+    cases hk
+  | high c hc =>
+    show c ≠ '%'
+    rintro rfl
+    revert hc; decide
+
+/-! ### safely_unquote_*: raw delimiters are neither created nor removed -/
+
+theorem flush_mem (bs : List UInt8) (hb : ∀ b ∈ bs, 0x80 ≤ b.toNat) {t : Tok} (ht : t ∈ flush bs) :
+    (∃ h1 h2, t = .esc h1 h2) ∨ (∃ c, t = .raw c ∧ 0xa0 ≤ c.toNat) := by
+  have := outTok_flush [] [] bs hb t ht
+  cases this with
+  | input c hc _ => simp at hc
+  | esc h1 h2 _ _ => exact .inl ⟨h1, h2, rfl⟩
+  | ascii b hlt hk h20 =>
+    -- not produced by `flush`, but harmless: re-derive from the definition
+    simp only [flush, List.mem_flatMap] at ht
+    obtain ⟨x, hx, ht⟩ := ht
+    have hs := segment_high bs hb x hx
+    cases x with
+    | inl c =>
+      simp only at ht
+      split at ht
+      · simp only [List.mem_map] at ht
+        obtain ⟨b', _, hb'⟩ := ht
+        simp [escOfByte] at hb'
+      · rename_i hc1
+        simp only [List.mem_singleton] at ht
+        right
+        refine ⟨c, ht, ?_⟩
+        simp only [isC1, Bool.and_eq_true, decide_eq_true_eq, not_and, Nat.not_le] at hc1
+        have h80 : 0x80 ≤ c.toNat := hs
+        have := hc1 h80
+        omega
+    | inr b' =>
+      simp only [List.mem_singleton] at ht
+      simp [escOfByte] at ht
+  | high c hc => exact .inr ⟨c, rfl, hc⟩
+
+def litCount (d : Char) : Item → Nat
+  | .lit t => if t = .raw d then 1 else 0
+  | .byte _ => 0
+
+theorem count_flush (d : Char) (hd : d.toNat < 0x80) (bs : List UInt8)
+    (hb : ∀ b ∈ bs, 0x80 ≤ b.toNat) : (flush bs).count (.raw d) = 0 := by
+  rw [List.count_eq_zero]
+  intro hm
+  rcases flush_mem bs hb hm with ⟨h1, h2, h⟩ | ⟨c, h, hc⟩
+  · cases h
+  · cases h; omega
+
+theorem count_assemble (d : Char) (hd : d.toNat < 0x80) (its : List Item) (acc : List UInt8)
+    (hits : ∀ it ∈ its, ∀ b, it = .byte b → 0x80 ≤ b.toNat) (hacc : ∀ b ∈ acc, 0x80 ≤ b.toNat) :
+    (assemble its acc).count (.raw d) = (its.map (litCount d)).sum := by
+  induction its generalizing acc with
+  | nil => simp [assemble, count_flush d hd acc hacc]
+  | cons it its ih =>
+    have hrest : ∀ it' ∈ its, ∀ b, it' = .byte b → 0x80 ≤ b.toNat :=
+      fun it' h => hits it' (by simp [h])
+    cases it with
+    | lit t =>
+      simp only [assemble, List.count_append, List.count_cons, count_flush d hd acc hacc,
+        ih [] hrest (by simp), List.map_cons, List.sum_cons, litCount]
+      by_cases h : t = .raw d <;> simp [h] <;> omega
+    | byte b =>
+      simp only [assemble, List.map_cons, List.sum_cons, litCount]
+      rw [ih _ hrest]
+      · omega
+      · intro b' hb'
+        simp only [List.mem_append, List.mem_singleton] at hb'
+        rcases hb' with hb' | rfl
+        · exact hacc b' hb'
+        · exact hits (.byte b') (by simp) b' rfl
+
+theorem litCount_itemOf (U : List UInt8) (d : Char) (hd : d.toNat < 0x80) (hsp : d ≠ ' ')
+    (hdU : UInt8.ofNat d.toNat ∈ U) (t : Tok) :
+    litCount d (itemOf U t) = if t = .raw d then 1 else 0 := by
+  cases t with
+  | raw c =>
+    simp only [itemOf]
+    split
+    · rename_i h; subst h
+      have : ¬ (Tok.raw ' ' = Tok.raw d) := by intro e; cases e; exact hsp rfl
+      simp [litCount, this]
+    · simp [litCount]
+  | stray => simp [itemOf, litCount]
+  | esc h1 h2 =>
+    simp only [itemOf]
+    split
+    · simp [litCount]
+    · rename_i hk
+      split
+      · rename_i hlt
+        have hlt' : (byteOf h1 h2).toNat < 0x80 := by
+          have := UInt8.lt_iff_toNat_lt.1 hlt; simpa using this
+        split
+        · simp [litCount]
+        · simp only [litCount, reduceCtorEq, if_false]
+          rw [if_neg]
+          intro e
+          cases e
+          -- then the byte is `d`'s, which is in `U`: it would have been kept
+          apply hk
+          have : UInt8.ofNat (Char.ofNat (byteOf h1 h2).toNat).toNat = byteOf h1 h2 := by
+            rw [toNat_ofNat_of_lt (by omega)]; simp
+          rw [this] at hdU
+          exact keepEsc_of_mem hdU
+      · simp [litCount]
+
+theorem sum_map_ite_eq_count (d : Char) (ts : List Tok) :
+    (ts.map (fun t => if t = Tok.raw d then 1 else 0)).sum = ts.count (.raw d) := by
+  induction ts with
+  | nil => rfl
+  | cons t ts ih =>
+    simp only [List.map_cons, List.sum_cons, ih, List.count_cons]
+    by_cases h : t = .raw d <;> simp [h] <;> omega
+
+theorem count_unquoteToks (U : List UInt8) (d : Char) (hd : d.toNat < 0x80) (hsp : d ≠ ' ')
+    (hdU : UInt8.ofNat d.toNat ∈ U) (ts : List Tok) :
+    (unquoteToks U ts).count (.raw d) = ts.count (.raw d) := by
+  unfold unquoteToks
+  rw [count_assemble d hd _ [] ?_ (by simp)]
+  · rw [List.map_map, ← sum_map_ite_eq_count]
+    congr 1
+    apply List.map_congr_left
+    intro t _
+    exact litCount_itemOf U d hd hsp hdU t
+  · intro it hit b hb
+    simp only [List.mem_map] at hit
+    obtain ⟨t, _, rfl⟩ := hit
+    cases t with
+    | raw c => simp only [itemOf] at hb; split at hb <;> cases hb
+    | stray => simp [itemOf] at hb
+    | esc h1 h2 =>
+      simp only [itemOf] at hb
+      split at hb
+      · cases hb
+      · split at hb
+        · split at hb <;> cases hb
+        · rename_i hge
+          cases hb
+          have : ¬ (byteOf h1 h2).toNat < 0x80 := by
+            intro h; exact hge (UInt8.lt_iff_toNat_lt.2 (by simpa using h))
+          omega
+
 end Ural.Quote
